@@ -182,7 +182,11 @@ pub fn render_opts(g: &Grammar, layout: &mut Rng, opts: &RenderOpts) -> String {
         match lay.below(8) {
             0 => " ".to_string(),
             1 => "\n\t".to_string(),
-            2 => "\n    // c\n    ".to_string(),
+            2 => match lay.below(4) {
+                0 => "\n    // é✓ non-ASCII comment\n    ".to_string(),
+                1 => "\n    //é\n    ".to_string(),
+                _ => "\n    // c\n    ".to_string(),
+            },
             _ => "\n    ".to_string(),
         }
     };
@@ -234,7 +238,7 @@ pub fn render_opts(g: &Grammar, layout: &mut Rng, opts: &RenderOpts) -> String {
     };
     let mut out = String::new();
     if fancy && layout.chance(1, 4) {
-        out.push_str("// generated workload grammar\n");
+        out.push_str(if layout.chance(1, 3) { "// état: generated workload grammar ✓\n" } else { "// generated workload grammar\n" });
     }
     for i in 0..=n {
         if i == start_pos && !opts.omit_start {
